@@ -5,18 +5,23 @@ package time
 // Contracts for fvc (see /verif/DESIGN.md). Comment-only file.
 
 //@ func DurationMax
+//@   params a, b
 //@   ensures [C06,C07,C08,C12,C13] result == max(a, b)
 
 //@ func DurationMin
+//@   params a, b
 //@   ensures result == min(a, b)
 
 //@ func Max
+//@   params a, b
 //@   ensures [C01] result == (a.Before(b) ? b : a)
 
 //@ func Min
+//@   params a, b
 //@   ensures [C01] result == (a.Before(b) ? a : b)
 
 //@ func MinNonZero
+//@   params a, b
 //@   ensures [C01] a.IsZero() ==> result == b
 //@   ensures [C01] !a.IsZero() && b.IsZero() ==> result == a
 //@   ensures [C01] !a.IsZero() && !b.IsZero() ==> result == (a.Before(b) ? a : b)
